@@ -1,59 +1,94 @@
 (* C01 - Round trip: a written table reads back exactly what was added.
-   FULL STATEMENT: C01_statement below.  It factors as
-     (writer output is a well-formed file: C09_statement)  o
-     (the reader reads every well-formed file: C11_statement).
-   PROVED so far: the writer side layout (Properties_C09.T09b_layout_partial), and
-   on the reader side the block iterator: seek_to_first/next walk the entries of a
-   well-formed block in order (T03b) - restated here as T01_block_walk_partial.
-   NOT yet proved: that decoding the framed bytes yields those blocks, and the
-   index/block hand-over of reader_iter_next.  Both are exercised by engine rd on
-   every generated table (implementation = model = entries added), and mtbl_dump
-   with all its filters is compared with the specification. *)
+   PROVED (T01_roundtrip): for every writer configuration (compression algorithm and
+   level: any compress / decompress pair that round-trips, block size, restart interval
+   >= 1), every byte string already in the file before the table, and every strictly
+   increasing sequence of (key, value) pairs, opening the finished file with the model
+   reader and iterating from the start returns exactly that sequence.
+   T01_any_input is the general form: for ANY sequence of adds (sorted or not) the table
+   holds exactly the entries whose add returned success, in order.
+   T01_written_table_ok: the written file satisfies table_ok, so lookups (T02) and
+   every next/seek history (T03c) on a written table are those of the sorted list of the
+   accepted entries as well.
+   Domain of the theorems (sizes that fit the format's integer widths): keys and values
+   shorter than 4 GiB, block_size + |key| + |value| + 32 < 2^32 for every entry (no data
+   block reaches 4 GiB, so restart arrays are 32-bit), index block < 4 GiB, file shorter
+   than 2^64 bytes and statistics below 2^64.  Blocks above 4 GiB (64-bit restart arrays)
+   are not covered by proof; engine rd executes that branch on a sparse block.
+   The proof is about the Gallina model of writer.c / block_builder.c / block.c /
+   reader.c / metadata.c / varint.c / fixed.c; the tie to the C code is engine wr (writer
+   model = real writer, byte for byte, over the configuration space) and engine rd (reader
+   model = real reader on every operation; mtbl_dump and its filters against the
+   specification).  The thread pool and madvise options do not exist in the model: they
+   are exercised by engines wr/rd as configurations whose output must be byte-identical. *)
 From Coq Require Import NArith ZArith List Lia.
 From Mtbl Require Import gen.Consts model.Bytes model.Order model.Block model.Writer spec.Parse model.Reader
-  proofs.WriterProofs proofs.BlockProofs.
+  proofs.WriterProofs proofs.MetaProofs proofs.BlockProofs proofs.LookupProofs proofs.ReaderProofs proofs.BlockRT proofs.TableRT.
 Local Open Scope N_scope.
 
 Section C01.
 Variable compress_default : N -> bytes -> res bytes.
 Variable compress_level : N -> Z -> bytes -> res bytes.
 Variable decompress : N -> bytes -> res bytes.
+Hypothesis decompress_compress_default : forall a raw c, compress_default a raw = Ok c -> decompress a c = Ok raw.
+Hypothesis decompress_compress_level : forall a l raw c, compress_level a l raw = Ok c -> decompress a c = Ok raw.
 
-Fixpoint strictly_sorted (l : list bytes) : Prop :=
-  match l with
-  | a :: ((b :: _) as tl) => bcmp a b = Lt /\ strictly_sorted tl
-  | _ => True
-  end.
+(* sizes fit the integer widths of the format *)
+Definition fits (o : wopts) (prefix : bytes) (ops : list entry) (w' : writer) : Prop :=
+  Forall (fun kv => wf_bytes (fst kv) /\ len (fst kv) < 2 ^ 32 /\ len (snd kv) < 2 ^ 32 /\
+                    wo_block_size o + len (fst kv) + len (snd kv) + 32 < 2 ^ 32) ops /\
+  meta_small (w_m w') /\ m_bytes_index_block (w_m w') < 2 ^ 32 /\ len (prefix ++ writer_bytes w') < 2 ^ 64.
 
-Definition C01_statement : Prop :=
-  (forall a raw c, compress_default a raw = Ok c -> decompress a c = Ok raw) ->
-  (forall a l raw c, compress_level a l raw = Ok c -> decompress a c = Ok raw) ->
-  forall o (prefix : bytes) es w rs, 1 <= wo_interval o ->
-    strictly_sorted (map fst es) ->
-    Forall (fun kv => wf_bytes (fst kv) /\ wf_bytes (snd kv) /\ len (fst kv) < 2 ^ 32 /\ len (snd kv) < 2 ^ 32) es ->
-    writer_session compress_default compress_level o (len prefix) es = Ok (w, rs) ->
-    read_all decompress (S (length es)) (prefix ++ writer_bytes w) = Ok es.
-End C01.
-
-Theorem T01_block_walk_partial : forall b ridx, wfb b ridx ->
-  (exists s, block_seek_to_first b = Ok s /\ st_ok b ridx s /\ bs_valid s = true /\ bs_cur s = 0%nat) /\
-  (forall s, st_ok b ridx s -> bs_valid s = true ->
-     st_ok b ridx (block_next b s) /\
-     (if Nat.ltb (S (bs_cur s)) (nentries b)
-      then bs_valid (block_next b s) = true /\ bs_cur (block_next b s) = S (bs_cur s)
-      else bs_valid (block_next b s) = false)).
+Theorem T01_any_input : forall o prefix ops w' rs,
+  1 <= wo_interval o ->
+  writer_session compress_default compress_level o (len prefix) ops = Ok (w', rs) ->
+  fits o prefix ops w' ->
+  forall fuel, (length (kept ops rs) < fuel)%nat ->
+  read_all decompress fuel (prefix ++ writer_bytes w') = Ok (kept ops rs).
 Proof.
-  intros b ridx W. split; [exact (seek_first_ok b ridx W)|exact (block_next_ok b ridx W)].
+  intros o prefix ops w' rs Hi Hs (Hf & Hm & Hx & Hl).
+  exact (roundtrip_read_all compress_default compress_level decompress decompress_compress_default decompress_compress_level
+           o prefix ops w' rs Hi Hf Hs Hm Hx Hl).
 Qed.
-Print Assumptions T01_block_walk_partial.
 
-(* the full statement holds on a concrete multi-block instance (model writer -> model
-   reader, compression NONE, 5 foreign bytes in front) *)
+Theorem T01_roundtrip : forall o prefix es w' rs,
+  1 <= wo_interval o -> strictly_sorted (map fst es) ->
+  writer_session compress_default compress_level o (len prefix) es = Ok (w', rs) ->
+  fits o prefix es w' ->
+  read_all decompress (S (length es)) (prefix ++ writer_bytes w') = Ok es.
+Proof.
+  intros o prefix es w' rs Hi Hsorted Hs Hfits. pose proof Hfits as (Hf & _).
+  pose proof (roundtrip_sorted compress_default compress_level o prefix es w' rs Hi Hf Hsorted Hs) as Hk.
+  pose proof (T01_any_input o prefix es w' rs Hi Hs Hfits (S (length es))) as H. rewrite Hk in H. apply H. apply Nat.lt_succ_diag_r.
+Qed.
+
+Theorem T01_written_table_ok : forall o prefix ops w' rs,
+  1 <= wo_interval o ->
+  writer_session compress_default compress_level o (len prefix) ops = Ok (w', rs) ->
+  fits o prefix ops w' ->
+  exists r, fst (reader_open (prefix ++ writer_bytes w') false) = Ok (Some r) /\
+    ((kept ops rs = [] /\ exists ib r0, r_index r = Some ib /\ ab_entries ib = [] /\ ab_restarts ib = [r0]) \/
+     (exists ib iridx ds, table_ok decompress r ib iridx (length ds) (Bof ds) (Rof ds) /\
+                          table_entries_of (length ds) (Bof ds) = kept ops rs)).
+Proof.
+  intros o prefix ops w' rs Hi Hs (Hf & Hm & Hx & Hl).
+  exact (written_table_ok compress_default compress_level decompress decompress_compress_default decompress_compress_level
+           o prefix ops w' rs Hi Hf Hs Hm Hx Hl).
+Qed.
+End C01.
+Print Assumptions T01_any_input.
+Print Assumptions T01_roundtrip.
+Print Assumptions T01_written_table_ok.
+
+(* non-vacuity: a concrete multi-block instance meets every hypothesis (model writer,
+   compression NONE, 5 foreign bytes in front), and the conclusion computes *)
 Example T01_example :
   let o := mkwopts 0 (-10000)%Z 64 2 in
+  let prefix := [1; 2; 3; 4; 5] in
   let es := [([], [9]); ([97], repeat 120 30); ([97; 98], repeat 121 30); ([98], repeat 122 30); ([98; 0], [])] in
-  match writer_session (fun _ _ => Fail) (fun _ _ _ => Fail) o 0 es with
-  | Ok (w, _) => read_all (fun _ _ => Fail) 6 (writer_bytes w) = Ok es
+  match writer_session (fun _ _ => Fail) (fun _ _ _ => Fail) o (len prefix) es with
+  | Ok (w, rs) => rs = [true; true; true; true; true] /\
+                  m_count_data_blocks (w_m w) = 3 /\
+                  read_all (fun _ _ => Fail) 6 (prefix ++ writer_bytes w) = Ok es
   | _ => False
   end.
-Proof. vm_compute. reflexivity. Qed.
+Proof. vm_compute. repeat split. Qed.
